@@ -87,6 +87,8 @@ pub async fn start<F, Fut>(
                     Level::Warn,
                     format!("Failed to get event files with error: {}", e),
                 );
+                // cannot tell whether the cap is reached: drop the events rather than exceed it
+                continue;
             }
         }
 
